@@ -3,8 +3,8 @@ C04 — Genomic-model predictions are linear, label-preserving and self-consiste
 model reproduces the training mean, gives monomorphic markers zero effect, never does worse on its
 penalised criterion than the all-zero solution and solves its normal equations.
 
-Property theorems only (helper lemmas: Lemmas/GenomicLin, GenomicEntries, GenomicStats, Alleles,
-GaussSeidelFn, GaussSeidelList, RidgeEnergy, RRFit).
+Property theorems only (helper lemmas: Lemmas/GenomicLin, GenomicEntries, GenomicStats, GenomicDom, Alleles,
+GaussSeidelFn, GaussSeidelList, GaussSeidelLast, GaussSeidelConv, RidgeEnergy, RRFit, SpecLink*).
 
 Models: Model/GenomicModel.lean (DenseLinearGenomicModel, DenseAdditiveLinearGenomicModel,
 DenseAdditiveDominanceLinearGenomicModel, TrueBreedingValue, mat_asformat/acount/afreq),
@@ -20,6 +20,10 @@ import PybropsModel.Lemmas.AllelesCell
 import PybropsModel.Lemmas.RidgeDominant
 import PybropsModel.Lemmas.GenomicMisc
 import PybropsModel.Lemmas.SpecLinkStats
+import PybropsModel.Lemmas.GenomicDom
+import PybropsModel.Lemmas.GaussSeidelLast
+import PybropsModel.Lemmas.SpecLinkFit
+import Mathlib.Analysis.SpecialFunctions.Exp
 set_option autoImplicit false
 set_option linter.unusedSectionVars false
 set_option linter.unusedSimpArgs false
@@ -148,6 +152,20 @@ theorem fit_bvmat (Y Z : List (List α)) (loc scale : List α) (p t : ℕ)
 
 example : (∀ s ∈ ([2, 1/3] : List ℚ), s ≠ 0) ∧ (∀ r ∈ ([[1, 2], [3, 5]] : List (List ℚ)), r.length = 2) := by decide +kernel
 
+/-- **prediction of the dominance model with fixed effects**:
+    `Ŷ_ik = Σ_r X_ir β_rk + Σ_j A_ij a_jk + Σ_j [A_ij ∉ {0, ploidy}] d_jk` -/
+theorem predict_dom_linear (beta ua ud X : List (List α)) (t : ℕ) (ploidy : Int) (A : List (List Int)) (i k : ℕ)
+    (hiX : i < X.length) (hi : i < A.length) (hk : k < t) (hX : (X.getD i []).length = beta.length)
+    (hrect : ∀ r ∈ A, r.length = ua.length) (hd : ud.length = ua.length) :
+    matFn (predictDomGM beta ua ud X t ploidy A) i k
+      = ∑ r ∈ range beta.length, matFn X i r * matFn beta r k
+        + ∑ j ∈ range ua.length, ((ient A i j : Int) : α) * matFn ua j k
+        + ∑ j ∈ range ua.length, (if ient A i j ≠ 0 ∧ ient A i j ≠ ploidy then matFn ud j k else 0) :=
+  GDom.predictDomGM_entry beta ua ud X t ploidy A i k hiX hi hk hX hrect hd
+
+example : matFn (predictDomGM ([[1, 2], [3, 0]] : List (List ℚ)) [[1, -1], [0, 2]] [[1, 0], [0, 1]]
+    [[1, 0], [1, 1], [1, 2]] 2 4 [[1, 2], [4, 1], [0, 0]]) 1 0 = 8 := by decide +kernel
+
 /-! ## 2. … irrespective of taxon order; output rows carry the input's labels -/
 
 /-- reorder / select the taxa of a phased genotype -/
@@ -173,6 +191,28 @@ theorem labels_preserved {L G : Type} (beta ua : List (List α)) (t : ℕ) (g : 
     (gebvUnphased beta ua t A taxa grp).taxa = taxa ∧ (gebvUnphased beta ua t A taxa grp).taxa_grp = grp ∧
     (gebvRaw beta ua t A : Labelled α L G).taxa = none ∧ (gebvRaw beta ua t A : Labelled α L G).taxa_grp = none :=
   ⟨rfl, rfl, rfl, rfl, rfl, rfl⟩
+
+/-- **`TrueBreedingValue.estimate` returns the GEBVs of the GENOTYPE input with the genotype input's labels,
+    whatever phenotype object is handed over** (of any type, e.g. a breeding value matrix that lists the taxa
+    in another order or under other names) -/
+theorem tbv_estimate_uses_genotype_labels {P P' L G : Type} (beta ua : List (List α)) (t : ℕ) (pt : P) (pt' : P')
+    (g : List (List (List Int))) (taxa : Option (List L)) (grp : Option (List G)) :
+    (tbvEstimate beta ua t pt g taxa grp : Labelled α L G) = tbvEstimate beta ua t pt' g taxa grp ∧
+    (tbvEstimate beta ua t pt g taxa grp : Labelled α L G).taxa = taxa ∧
+    (tbvEstimate beta ua t pt g taxa grp : Labelled α L G).taxa_grp = grp ∧
+    (tbvEstimate beta ua t pt g taxa grp : Labelled α L G).mat = gebvMat beta ua (castM (phaseSum g)) t :=
+  ⟨rfl, rfl, rfl, rfl⟩
+
+/-- the dominance model's labelled GEGVs: labels preserved, and equivariant under any taxon index list -/
+theorem gegv_labels_equivariant {L G : Type} (beta ua ud : List (List α)) (t n : ℕ) (ploidy : Int)
+    (g : List (List (List Int))) (hg : ∀ ph ∈ g, ph.length = n) (is : List ℕ) (his : ∀ i ∈ is, i < n)
+    (taxa : Option (List L)) (grp : Option (List G)) :
+    (gegvPhased beta ua ud t ploidy g taxa grp).taxa = taxa ∧ (gegvPhased beta ua ud t ploidy g taxa grp).taxa_grp = grp ∧
+    gegvPhased beta ua ud t ploidy (takeTaxa is g) (taxa.map (Np.take is)) (grp.map (Np.take is))
+      = ⟨Np.take is (gegvPhased beta ua ud t ploidy g taxa grp).mat, taxa.map (Np.take is), grp.map (Np.take is)⟩ := by
+  refine ⟨rfl, rfl, ?_⟩
+  unfold gegvPhased takeTaxa
+  rw [phaseSum_take is n his g hg, GLin.gegvGM_take]
 
 /-- the dominance model is equivariant too -/
 theorem gegv_taxa_equivariant (beta ua ud : List (List α)) (t : ℕ) (ploidy : Int) (A : List (List Int))
@@ -264,6 +304,22 @@ theorem gebv_numpy_marker_blocks (n t : ℕ) (blocks : List (List (List α) × L
 
 example : ∀ b ∈ ([([[1], [0]], [[2]]), ([[1, 1], [0, 2]], [[1], [3]])] : List (List (List ℚ) × List (List ℚ))),
     b.1.length = 2 ∧ ∀ r ∈ b.1, r.length = b.2.length := by decide
+
+/-- **dominance model, marker partition**: with dosages `A = [A₁ | A₂]`, `a = [a₁ ; a₂]`, `d = [d₁ ; d₂]` the
+    GEGV is the GEGV of the first block (which carries the intercept) plus the additive + dominance part
+    `[A₂ | D₂] @ [a₂ ; d₂]` of the second block: the heterozygosity design splits with the markers.
+    Iterating gives any number of blocks. -/
+theorem gegv_marker_partition (beta ua1 ua2 ud1 ud2 : List (List α)) (t : ℕ) (ploidy : Int)
+    (A1 A2 : List (List Int)) (hlen : A1.length = A2.length) (hA1 : ∀ r ∈ A1, r.length = ua1.length)
+    (hA2 : ∀ r ∈ A2, r.length = ua2.length) (hd1 : ud1.length = ua1.length) :
+    gegvGM beta (ua1 ++ ua2) (ud1 ++ ud2) t ploidy (hcat A1 A2)
+      = madd (gegvGM beta ua1 ud1 t ploidy A1)
+             (matMul (castM (hcat A2 (hetGM ploidy A2))) (ua2 ++ ud2) t) :=
+  GDom.gegvGM_hcat beta ua1 ua2 ud1 ud2 t ploidy A1 A2 hlen hA1 hA2 hd1
+
+example : gegvGM ([[1]] : List (List ℚ)) ([[2]] ++ [[-1]]) ([[3]] ++ [[5]]) 1 2 (hcat [[1], [2]] [[1], [0]])
+    = madd (gegvGM [[1]] [[2]] [[3]] 1 2 [[1], [2]]) (matMul (castM (hcat [[1], [0]] (hetGM 2 [[1], [0]]))) ([[-1]] ++ [[5]]) 1) := by
+  decide +kernel
 
 
 /-! ## 5. Variances, Bulmer ratio, coefficient of determination -/
@@ -397,6 +453,45 @@ theorem score_def (beta u Y X Z : List (List α)) (t k : ℕ) (hk : k < t)
     · intro h
       show 1 - sse / sst = 1
       rw [hsse, h]; simp
+
+/-- **a breeding-value matrix with ANY stored values, location and scale as phenotype input**: the values
+    that enter R² are `scale_k · mat_ik + location_k` (`unscale()`), whatever the matrix was built from -/
+theorem bvmat_unscaled_entry (mat : List (List α)) (loc scale : List α) (t i k : ℕ) (hi : i < mat.length)
+    (hrow : (mat.getD i []).length = t) (hl : loc.length = t) (hs : scale.length = t) (hk : k < t) :
+    matFn (unscaleBV mat loc scale) i k = vecFn scale k * matFn mat i k + vecFn loc k :=
+  GDom.unscaleBV_entry mat loc scale t i k hi hrow hl hs hk
+
+/-- **… and R² is `1 − SSE/SST` of those unscaled values about THEIR OWN column mean** (not about the stored
+    location, which is the column mean only for matrices made by `from_numpy`): for every stored matrix,
+    location and scale (no relation between them assumed) -/
+theorem score_bvmat_any (beta u mat X Z : List (List α)) (loc scale : List α) (t k : ℕ) (hk : k < t)
+    (hlen : (col (unscaleBV mat loc scale) k).length = (col (predictNumpy beta u X Z t) k).length)
+    (hsst : ((col (unscaleBV mat loc scale) k).map (fun a =>
+        (a - mean (col (unscaleBV mat loc scale) k)) * (a - mean (col (unscaleBV mat loc scale) k)))).sum ≠ 0) :
+    ∃ r, (scoreBV beta u mat loc scale X Z t).getD k none = some r ∧
+      r = 1 - (List.zipWith (fun a b => (a - b) * (a - b)) (col (unscaleBV mat loc scale) k)
+                  (col (predictNumpy beta u X Z t) k)).sum
+              / ((col (unscaleBV mat loc scale) k).map (fun a =>
+                  (a - mean (col (unscaleBV mat loc scale) k)) * (a - mean (col (unscaleBV mat loc scale) k)))).sum ∧
+      r ≤ 1 ∧ (r = 1 ↔ col (unscaleBV mat loc scale) k = col (predictNumpy beta u X Z t) k) :=
+  score_def beta u (unscaleBV mat loc scale) X Z t k hk hlen hsst
+
+example : ((col (unscaleBV ([[1], [3]] : List (List ℚ)) [0] [1]) 0).map (fun a =>
+    (a - mean (col (unscaleBV ([[1], [3]] : List (List ℚ)) [0] [1]) 0))
+      * (a - mean (col (unscaleBV ([[1], [3]] : List (List ℚ)) [0] [1]) 0)))).sum ≠ 0 := by decide +kernel
+
+/-- a variant that takes the total sum of squares about a centre supplied from outside agrees with `score`
+    when that centre is the column mean … -/
+theorem score_about_column_mean (beta u Y X Z : List (List α)) (t : ℕ) :
+    GDom.scoreAbout ((List.range t).map (fun k => mean (col Y k))) beta u Y X Z t = score beta u Y X Z t :=
+  GDom.scoreAbout_mean beta u Y X Z t
+
+/-- … and **differs when the stored location is used as the centre** for a matrix that holds raw values
+    (location 0, scale 1: the constructor defaults): R² = 1/2 about the mean, 9/10 about the location -/
+theorem score_about_location_counterexample :
+    scoreBV ([[0]] : List (List ℚ)) [[1]] [[1], [3]] [0] [1] [[1], [1]] [[1], [2]] 1
+      ≠ GDom.scoreAbout [0] [[0]] [[1]] (unscaleBV [[1], [3]] [0] [1]) [[1], [1]] [[1], [2]] 1 := by
+  decide +kernel
 
 /-! ## 6. Favourable / deleterious / neutral alleles -/
 
@@ -660,6 +755,12 @@ theorem fit_never_worse_than_zero (Y Z : List (List α)) (n p : ℕ) (hZ : Ridge
 
 example : Ridge.Rect ([[0, 1], [1, 1], [2, 0]] : List (List ℚ)) 3 2 := ⟨by decide, by decide⟩
 
+/-- **the ridge the ML step hands to the solver is positive**: `varE = exp(x₀)`, `varU = exp(x₁)` for the
+    Nelder–Mead optimum `(x₀, x₁)`, `ridge = varE / varU` — whatever the optimiser returns.  This is the only
+    fact about the ML step the theorems above use (`hr : 0 < ridge`). -/
+theorem ml_ridge_positive (x0 x1 : ℝ) : 0 < Real.exp x0 / Real.exp x1 :=
+  div_pos (Real.exp_pos x0) (Real.exp_pos x1)
+
 /-- the intercept returned by `rrBLUP_ML0` is the mean of the response -/
 theorem ml0_intercept (y : List α) (Z : List (List α)) (p : ℕ) (ridge atol : α) (maxiter : ℕ) :
     (ml0 y Z p ridge atol maxiter).1 = mean y := rfl
@@ -756,6 +857,88 @@ theorem normal_equations_counterexample_default_maxiter :
     let u := (ml0 y Z 2 ridge atol 1000).2
     ¬ (|GSFn.resid 2 (matFn (ztzPlusRidge Z 2 ridge)) (vecFn (zty Z 2 (center y))) (vecFn u) 0|
         ≤ atol * ∑ j ∈ range 2, if 0 < j then |matFn (ztzPlusRidge Z 2 ridge) 0 j| else 0) := by
+  decide +kernel
+
+/-! ### 9b. what is returned however the loop ends (tolerance test or sweep limit) -/
+
+/-- the loop never performs more than `maxiter` sweeps -/
+theorem gs_sweeps_le_maxiter (A : List (List α)) (b : List α) (atol : α) (maxiter : ℕ) :
+    gsSweeps A b atol maxiter (decide (atol < atol + atol)) (b.map (fun _ => (0:α))) ≤ maxiter :=
+  GSLast.gsSweeps_le_fuel A b atol maxiter _ _
+
+/-- it performs none exactly when `maxiter = 0` or the very first test `2·atol > atol` fails, i.e. when
+    `atol ≤ 0`; then the all-zero vector is returned (so `gsatol = 0`, which `rrBLUP_ML0` accepts, yields
+    all-zero marker effects) -/
+theorem gs_no_sweep_iff (A : List (List α)) (b : List α) (atol : α) (maxiter : ℕ) :
+    (gsSweeps A b atol maxiter (decide (atol < atol + atol)) (b.map (fun _ => (0:α))) = 0
+      ↔ maxiter = 0 ∨ atol ≤ 0) ∧
+    (gsSweeps A b atol maxiter (decide (atol < atol + atol)) (b.map (fun _ => (0:α))) = 0 →
+      gaussSeidel A b atol maxiter = b.map (fun _ => (0:α))) := by
+  constructor
+  · rw [GSLast.gsSweeps_eq_zero_iff]
+    simp only [decide_eq_false_iff_not, not_lt]
+    constructor
+    · rintro (h | h)
+      · exact Or.inl h
+      · right; linarith
+    · rintro (h | h)
+      · exact Or.inl h
+      · right; linarith
+  · intro h0
+    exact GSLast.gsLoop_of_sweeps_zero A b atol maxiter _ _ h0
+
+/-- **`gsatol = 0` (finding D22b)**: `rrBLUP_ML0` accepts a zero tolerance, the loop test `2·0 > 0` is false at
+    once and the all-zero effects are returned whatever `gsmaxiter`: with six records and two polymorphic
+    markers (n > p) they do not solve the penalised normal equations (residual `Z'y_c ≠ 0`). -/
+theorem normal_equations_atol_zero_counterexample :
+    let y : List ℚ := [1, 2, 4, 3, 0, 5]
+    let Z : List (List ℚ) := [[0, 1], [1, 1], [2, 0], [1, 2], [0, 0], [2, 2]]
+    let ridge : ℚ := 1/2
+    (ml0 y Z 2 ridge 0 1000).2 = [0, 0] ∧
+    ¬ (|GSFn.resid 2 (matFn (ztzPlusRidge Z 2 ridge)) (vecFn (zty Z 2 (center y))) (vecFn (ml0 y Z 2 ridge 0 1000).2) 0|
+        ≤ 0 * ∑ j ∈ range 2, if 0 < j then |matFn (ztzPlusRidge Z 2 ridge) 0 j| else 0) := by
+  decide +kernel
+
+/-- **characterisation of the returned iterate, however the loop ended** (by its tolerance test or by the
+    sweep limit — the case of finding D22): if at least one sweep was performed, the result is exactly ONE
+    sweep away from the previous iterate `xp`; `xp` is already no worse than the zero start, the result no
+    worse than `xp`; every residual of `A x = b` is the explicit combination
+    `Σ_{j>i} A_ij (xp_j − x_j)` of the LAST step, hence bounded by `D · Σ_{j>i}|A_ij|` for any bound `D` on
+    the last step size `‖x − xp‖∞` (`D = atol` when the loop stopped by tolerance; at `maxiter` the last
+    step may be arbitrarily larger — `normal_equations_counterexample`). -/
+theorem gs_result_is_last_sweep {n : ℕ} {A : List (List α)} {b : List α} (h : Square n A b)
+    (hs : SymPosDiag n A) (atol : α) (maxiter : ℕ)
+    (h1 : 1 ≤ gsSweeps A b atol maxiter (decide (atol < atol + atol)) (b.map (fun _ => (0:α)))) :
+    ∃ xp : List α, xp.length = n ∧ gaussSeidel A b atol maxiter = gsSweep A b xp ∧
+      energyL n A b xp ≤ 0 ∧ energyL n A b (gaussSeidel A b atol maxiter) ≤ energyL n A b xp ∧
+      (∀ i, i < n → GSFn.resid n (matFn A) (vecFn b) (vecFn (gaussSeidel A b atol maxiter)) i
+          = ∑ j ∈ range n, if i < j then matFn A i j * (vecFn xp j - vecFn (gaussSeidel A b atol maxiter) j) else 0) ∧
+      (∀ D : α, (∀ j, j < n → |vecFn (gaussSeidel A b atol maxiter) j - vecFn xp j| ≤ D) →
+        ∀ i, i < n → |GSFn.resid n (matFn A) (vecFn b) (vecFn (gaussSeidel A b atol maxiter)) i|
+          ≤ D * GSConv.upSum n (matFn A) i) := by
+  have hz : (b.map (fun _ => (0:α))).length = n := by simp [h.rhs]
+  obtain ⟨xp, hxp, hres, hen⟩ := GSLast.gsLoop_last_sweep h hs atol maxiter _ _ hz h1
+  have he0 : energyL n A b (b.map (fun _ => (0:α))) = 0 := by
+    unfold energyL
+    rw [vecFn_zeros]
+    exact GSFn.energy_zero n _ _
+  have hg : gaussSeidel A b atol maxiter = gsSweep A b xp := hres
+  refine ⟨xp, hxp, hg, by rw [← he0]; exact hen, ?_, ?_, ?_⟩
+  · rw [hg]; exact gsSweep_energy_le h hs xp hxp
+  · intro i hi
+    rw [hg]
+    exact gs_residual_identity h xp hxp i hi ((hs.diag i hi).ne')
+  · intro D hD i hi
+    rw [hg] at hD ⊢
+    exact GSLast.sweep_resid_le_step h xp hxp D hD i hi ((hs.diag i hi).ne')
+
+/-- the D22 system after the three sweeps it is allowed: the result is the sweep of the second iterate and
+    that last step still moved a coordinate by more than `atol` (the loop would have continued) -/
+theorem d22_stopped_by_sweep_limit :
+    let A : List (List ℚ) := ztzPlusRidge [[1, 1], [0, 0], [1, 1]] 2 (1/2)
+    let b : List ℚ := zty [[1, 1], [0, 0], [1, 1]] 2 (center [4, 5, 4])
+    let x2 := gsSweep A b (gsSweep A b [0, 0])
+    gaussSeidel A b (1/100000000) 3 = gsSweep A b x2 ∧ moved (1/100000000) (gsSweep A b x2) x2 = true := by
   decide +kernel
 
 /-! ## 10. rrBLUP: convergence of Gauss–Seidel for strictly diagonally dominant systems
@@ -928,6 +1111,37 @@ theorem spec_alleles_complete {ua : List (List ℚ)} {g : List (List (List Int))
     o = modelAlleles ua ploidy (phaseSum g) := by
   rw [modelAlleles_eq_ref h ploidy]
   exact specAlleles_zero ua ploidy g o hall
+
+/-- **spec_sound (gauss_seidel oracle `c04.spec_gs`)**: the oracle accepts what the model of `gauss_seidel`
+    returns for every symmetric system with positive diagonal, every `atol`, every `maxiter` -/
+theorem spec_gs_sound {n : ℕ} {A : List (List ℚ)} {b : List ℚ} (h : Square n A b) (hs : SymPosDiag n A)
+    (atol : ℚ) (maxiter : ℕ) (rel : ℚ) (hr : 0 ≤ rel) :
+    RSpec.specGs rel A b (gaussSeidel A b atol maxiter) = true :=
+  SpecLink.specGs_sound h hs atol maxiter rel hr
+
+/-- **spec_sound (fitted-model oracle `c04.spec_fit`)**: on the model's own fit (per-trait `rrBLUP_ML0` on the
+    polymorphic columns, scatter of the effects, intercept = mean) the clauses *shapes*, *(1) intercept =
+    training mean*, *(2) monomorphic markers exactly 0* and *(3) never worse than the all-zero solution* all
+    evaluate to true — for every training set, all positive ridges, every `gsatol` and sweep limit; with the
+    normal-equation clause switched off the verdict is `ok`.  (Clause (4) is `normal_equations_partial` /
+    `normal_equations_of_diag_dominant`; it is false of the model on the D22 inputs.) -/
+theorem spec_fit_sound (Y Z : List (List ℚ)) (n p t : ℕ) (hZ : Ridge.Rect Z n p) (hYn : Y.length = n)
+    (ridges : List ℚ) (hr : ∀ k, k < t → 0 < ridges.getD k 0) (atol : ℚ) (maxiter : ℕ)
+    (rel abs_ reltol : ℚ) (hrel : 0 ≤ rel) (habs : 0 ≤ abs_) (checkNE : Bool) :
+    let f := SpecLink.fitML0 Y Z p t ridges atol maxiter
+    let v := RSpec.specFit rel abs_ reltol atol Y Z p t ridges f.1 f.2 checkNE
+    v.shapes = true ∧ v.intercept = true ∧ v.mono = true ∧ v.descent = true ∧
+    (checkNE = false → v.ok = true) :=
+  SpecLink.specFit_sound Y Z n p t hZ hYn ridges hr atol maxiter rel abs_ reltol hrel habs checkNE
+
+/-- non-vacuity: a training set with a monomorphic and a duplicated column, two traits; the oracle evaluates
+    to `ok` on the model's fit after 3 sweeps (normal-equation clause off) and the fourth clause is indeed
+    false there (three sweeps are not enough) -/
+example : (RSpec.specFit (1/1000000000) (1/1000000000000) (1/1000000) (1/100000000)
+      [[1, 0], [2, 3], [4, 1], [3, 1]] [[0, 1, 2, 0], [1, 1, 2, 1], [2, 0, 2, 2], [1, 2, 2, 1]] 4 2 [1/2, 2]
+      (SpecLink.fitML0 [[1, 0], [2, 3], [4, 1], [3, 1]] [[0, 1, 2, 0], [1, 1, 2, 1], [2, 0, 2, 2], [1, 2, 2, 1]] 4 2 [1/2, 2] (1/100000000) 3).1
+      (SpecLink.fitML0 [[1, 0], [2, 3], [4, 1], [3, 1]] [[0, 1, 2, 0], [1, 1, 2, 1], [2, 0, 2, 2], [1, 2, 2, 1]] 4 2 [1/2, 2] (1/100000000) 3).2
+      false).ok = true := by decide +kernel
 
 /-- non-vacuity: the shape hypotheses hold for a concrete diploid case with dominance effects and
     covariates, and the oracle indeed evaluates to true on the model's GEGV matrix -/
